@@ -9,12 +9,14 @@ SPEC = {
     ],
     'stages': [
         custom('bin/crashsim/c16_worker.py', 320, 6400, name='c16_crash_images', needs=[('san', 'vh_c16')],
-               min_cases_quick=40, floors={'cut-inside-flush': 0.1, 'mode:power': 0.15, 'cut-after-coins-batch': 0.1},
-               hard_timeout_quick=1500, max_seconds_quick=420, max_seconds_thorough=5400,
+               min_cases_quick=40, floors={'cut-inside-flush': 0.1, 'mode:power': 0.06, 'cut-after-coins-batch': 0.1, 'mode:double-crash': 0.03},
+               hard_timeout_quick=3600, max_seconds_quick=900, max_seconds_thorough=5400,
                rule='one generated workload per worker (quick; 3 in thorough) recorded under strace; cut points = file operations after start-up, two thirds '
                     'drawn from windows of interest (inside a state flush, at a change of file class, before a rename/unlink), each as a kill image plus a '
                     'power-loss image (suffix of unsynced writes dropped, sometimes torn); non-trivial = cut inside a flush or at a file-class boundary or a '
-                    'power-loss variant; distinct = (workload, cut index, mode)'),
+                    'power-loss variant or a second crash during recovery; per workload one first-level image taken right after a coins-DB partial batch is additionally '
+                    'recovered under the recorder with small coins batches and cut again inside that recovery (fault sequences: kill + kill during ReplayBlocks flush); '
+                    'distinct = (workload, cut index, mode[, second cut])'),
     ],
 }
 
